@@ -56,6 +56,9 @@ class Profile:
         self.always_defined_numeric = False
         self.const_atoms = False  # constant-only comparison atoms (1 <= 2)
         self.exists_eq_bias = False  # exists x. (x == term and ...) shapes
+        self.temporal_delays = True  # intermediate timings / intervals
+        self.timed_items = True  # timed effects and timed goals
+        self.fixed_durations_only = False
         for k, v in kw.items():
             if not hasattr(self, k):
                 raise AttributeError(k)
@@ -453,7 +456,7 @@ class Gen:
         if self.p.effect_same_fluent_bias and prev_targets and self.b(0.35):
             f = self.pick(prev_targets)
         else:
-            f = self.pick(self.fluents)
+            f = self.pick([x for x in self.fluents if not x.get("nowrite")])
         forall = []
         sc = scope
         if self.p.forall_effects and f["params"] and self.b(0.3):
@@ -615,7 +618,7 @@ class TGen(Gen):
         k = self.i(0, 9)
         if k < 7 or not allow_fluent:
             return self.pick([["i", 1], ["i", 2], ["i", 3], ["r", "1/2"], ["r", "3/2"], ["i", 4]])
-        nums = [f for f in self.fluents if f["type"] != "bool" and f["type"][0] in ("int", "real") and not f["params"]]
+        nums = [f for f in self.fluents if f.get("nowrite")]
         if nums and k < 9:
             return ["fl", self.pick(nums)["name"]]
         ints = [p for p in scope["params"] if p[1] != "bool" and p[1][0] == "int"]
@@ -626,7 +629,7 @@ class TGen(Gen):
     def gen_duration(self, scope):
         lo = self.dur_bound(scope)
         m = self.i(0, 9)
-        if m < 4:
+        if m < 4 or self.p.fixed_durations_only:
             return {"lo": lo, "hi": lo, "lopen": False, "ropen": False}
         if lo[0] in ("i", "r"):
             from fractions import Fraction as F
@@ -642,6 +645,8 @@ class TGen(Gen):
         # EXTERNAL_CONDITIONS_AND_EFFECTS (unsupported by the validators), so either both ends
         # are delayed or none is.
         k = self.i(0, 9)
+        if not self.p.temporal_delays:
+            k = k % 6
         d = lambda: self.pick(["1/2", 1, "1/2"])
         if k < 2:
             return [["s", 0], ["s", 0], False, False]
@@ -672,7 +677,7 @@ class TGen(Gen):
             if r is None:
                 continue
             e, f = r
-            e["t"] = self.pick([["s", 0], ["e", 0], ["e", 0], ["s", "1/2"], ["e", "1/2"], ["s", 1]])
+            e["t"] = self.pick([["s", 0], ["e", 0], ["e", 0], ["s", "1/2"], ["e", "1/2"], ["s", 1]] if self.p.temporal_delays else [["s", 0], ["e", 0], ["e", 0]])
             effs.append(e)
             prev.append(f)
         return {"name": self.name("d"), "params": params, "dur": self.gen_duration(scope), "conds": conds, "effs": effs}
@@ -682,20 +687,23 @@ class TGen(Gen):
         self.gen_fluents()
         self.gen_ifuns()
         init = self.gen_init()
+        # fluents that durations may depend on: never written, positive (durations stay positive)
+        for k in range(self.i(0, 2)):
+            self.fluents.append({"name": self.name("dur"), "type": ["int", None, None] if self.b(0.6) else ["real", None, None], "params": [], "default": self.pick([["i", 1], ["i", 2], ["i", 3]]), "nowrite": True})
         actions = [self.gen_durative(k) for k in range(self.i(1, 2))]
         if self.b(0.5):
             actions.append(self.gen_action(9))
         top = {"params": [], "vars": []}
         goals = [self.bool_expr(top, self.i(0, 1)) for _ in range(self.i(0, 2))]
         timed_effects = []
-        for _ in range(self.i(0, 2) if self.b(0.5) else 0):
+        for _ in range(self.i(0, 2) if (self.p.timed_items and self.b(0.5)) else 0):
             r = self.gen_effect(top, [])
             if r is not None and r[0]["kind"] == "assign" and not r[0]["forall"]:
                 e = r[0]
                 e["t"] = ["gs", self.pick([1, 2, "1/2", 3, "5/2"])]
                 timed_effects.append(e)
         timed_goals = []
-        for _ in range(self.i(0, 2) if self.b(0.4) else 0):
+        for _ in range(self.i(0, 2) if (self.p.timed_items and self.b(0.4)) else 0):
             a = self.pick([0, 1, "1/2", 2])
             k = self.i(0, 3)
             from fractions import Fraction as F
